@@ -124,8 +124,7 @@ theorem prevPageSerial_fuel (ph : Phys) (begin_ : Int) (serials : List Int) (wan
   induction fuel with
   | zero =>
       intro b pg hb hf
-      have hC : CHUNKSIZE = 65536 := by decide
-      rw [hC] at hf
+      have : (0 : Int) ≤ b / CHUNKSIZE := Int.ediv_nonneg hb (Int.le_of_lt chunk_pos)
       omega
   | succ f ih =>
       intro b pg hb hf
@@ -146,13 +145,14 @@ theorem prevPageSerial_fuel (ph : Phys) (begin_ : Int) (serials : List Int) (wan
           have hlt : ¬ (b - CHUNKSIZE < 0) := by
             intro hh; simp [hh] at h0
           simp only [hlt, if_false] at h0 ⊢
+          have hstep : (b - CHUNKSIZE) / CHUNKSIZE = b / CHUNKSIZE - 1 := by
+            have h := Int.add_mul_ediv_right b (-1) (Int.ne_of_gt chunk_pos)
+            have e : b + -1 * CHUNKSIZE = b - CHUNKSIZE := by omega
+            rw [e] at h
+            omega
           apply ih
-          · have hC : CHUNKSIZE = 65536 := by decide
-            rw [hC] at hlt ⊢
-            omega
-          · have hC : CHUNKSIZE = 65536 := by decide
-            rw [hC] at hf hlt ⊢
-            omega
+          · omega
+          · rw [hstep]; omega
       · simp only [h1, if_false]
         by_cases hp : pf ≥ 0
         · simp only [hp, if_true]
